@@ -318,7 +318,10 @@ class Check(common.Check):
     LEAN_TARGETS = ['Sc3Verif.C13.Props']
     LEAN_DIRS = ['Sc3Verif/C13']
     THEOREMS = ['Sc3Verif.C13.' + t for t in (
-        'streams_independent', 'blueprint_immutable', 'stopped_stays_stopped')]
+        'stream_eq_den', 'stream_eq_den_S', 'den_chain', 'run_le_den', 'den_le_run',
+        'stream_take_eq_den', 'stream_end_iff_den_end', 'next_yield_obs', 'next_done_obs',
+        'next_err_obs', 'streams_independent', 'blueprint_immutable', 'stopped_stays_stopped',
+        'good_of_wf')]
     N_QUICK = 1500
     N_THOROUGH = 30000
     DEN_K = 12
